@@ -372,12 +372,8 @@ func (ctx *Context) evaluate() {
 	// ctx := &e.Context
 	var details []BufferSpan
 	numOpCountAdd := func(count IntType) bool {
-		if count > 0 && e.NumOpCount > math.MaxInt64-count {
-			// 饱和而不是回绕: 9223372036854775807d6 这样的次数会让计数变成负数，从而绕过算力上限
-			e.NumOpCount = math.MaxInt64
-		} else {
-			e.NumOpCount += count
-		}
+		// 饱和而不是回绕: 9223372036854775807d6 这样的次数会让计数变成负数，从而绕过算力上限
+		e.NumOpCount = opCountAdd(e.NumOpCount, count)
 		if ctx.Config.OpCountLimit > 0 && e.NumOpCount > ctx.Config.OpCountLimit {
 			ctx.Error = errors.New("允许算力上限")
 			return true
@@ -1188,6 +1184,14 @@ func (ctx *Context) evaluate() {
 	}
 
 	solveDetail()
+}
+
+// opCountAdd 算力计数的加法: 到达 MaxInt64 后保持饱和，绝不回绕成负数
+func opCountAdd(a IntType, b IntType) IntType {
+	if b > 0 && a > math.MaxInt64-b {
+		return math.MaxInt64
+	}
+	return a + b
 }
 
 func (ctx *Context) GetAsmText() string {
